@@ -253,11 +253,6 @@ Proof.
 Qed.
 
 (* ------------------------------------------------------------------ what separates two sessions' commands *)
-(* a FAR / QER command of the session with local SEID [s] *)
-Definition cmd_of_fseid (c : cmd) (s : N) : Prop :=
-  (c_mod c = MFar /\ exists i, c_key c = [i; s]) \/
-  (c_mod c = MAppQer /\ exists i j, c_key c = [i; j; s]) \/
-  (c_mod c = MSessQer /\ exists i, c_key c = [i; s]).
 
 Lemma fseid_separates c1 c2 s1 s2 : cmd_of_fseid c1 s1 -> cmd_of_fseid c2 s2 -> s1 <> s2 -> same_slot c1 c2 = false.
 Proof.
@@ -289,11 +284,8 @@ Proof. apply pdr_same_module. Qed.
 
 Section Sessions.
   Variable burst : N -> N -> N -> N.
-  (* the commands a session can ever send: adds and deletes of its rules *)
-  Definition session_cmds (ps : list pdr) (fs : list far) (qs : list qer) : list cmd :=
-    add_cmds burst ps fs qs ++ del_cmds ps fs qs.
 
-  Lemma session_cmd_cases ps fs qs s c : owned_by s fs qs -> In c (session_cmds ps fs qs) ->
+  Lemma session_cmd_cases ps fs qs s c : owned_by s fs qs -> In c (session_cmds burst ps fs qs) ->
     (c_mod c = MPdr /\ In c (pdr_cmds ps)) \/ cmd_of_fseid c s.
   Proof.
     intros [Of Oq] H. unfold session_cmds, add_cmds, del_cmds, pdr_cmds in *.
@@ -313,7 +305,7 @@ Section Sessions.
   (* sessions with different local SEIDs (and PDR match keys that differ) never address the same slot *)
   Lemma sessions_disjoint s1 s2 ps1 fs1 qs1 ps2 fs2 qs2 :
     s1 <> s2 -> owned_by s1 fs1 qs1 -> owned_by s2 fs2 qs2 -> keys_disjoint (pdr_cmds ps1) (pdr_cmds ps2) ->
-    keys_disjoint (session_cmds ps1 fs1 qs1) (session_cmds ps2 fs2 qs2).
+    keys_disjoint (session_cmds burst ps1 fs1 qs1) (session_cmds burst ps2 fs2 qs2).
   Proof.
     intros Hne O1 O2 Dp c1 c2 I1 I2.
     destruct (session_cmd_cases _ _ _ _ _ O1 I1) as [[M1 P1]|F1];
@@ -386,3 +378,94 @@ Lemma seid_collision :
     (* ... and association 2's deletion removed, although association 1's session is still there *)
     ss2 = [] /\ t_get [1; cz_draw] (t_far t3) = None.
 Proof. vm_compute. do 6 eexists. repeat split; try reflexivity; [eexists; reflexivity|right; left; reflexivity]. Qed.
+
+(* ------------------------------------------------------------------ an accepted establishment only writes its own session's slots *)
+Lemma fwd_loop_fseid : forall els aip cip f, a_fseid (fwd_loop els aip cip f) = a_fseid f.
+Proof.
+  induction els as [|e els IH]; intros aip cip f; [reflexivity|]. cbn [fwd_loop].
+  destruct e as [[|[t v]]|[|d]|[|fl]|]; try (rewrite IH; reflexivity).
+  destruct (has2nd_bit fl); rewrite IH; reflexivity.
+Qed.
+Lemma parse_far_fseid i s aip cip u f : parse_far i s aip cip u = Some f -> a_fseid f = s.
+Proof.
+  unfold parse_far. destruct (fi_id i); [discriminate|]. destruct (fi_action i); [discriminate|].
+  destruct (a0 =? 0); [discriminate|]. destruct u.
+  - destruct (fi_fwd_u i); [discriminate|]. intros H; inversion H. rewrite fwd_loop_fseid. reflexivity.
+  - destruct (negb (N.land a0 2 =? 0)).
+    + destruct (fi_fwd_c i); [discriminate|]. intros H; inversion H. rewrite fwd_loop_fseid. reflexivity.
+    + intros H; inversion H. reflexivity.
+Qed.
+Lemma parse_qer_fseid i s q : parse_qer i s = Some q -> q_fseid q = s.
+Proof. unfold parse_qer. destruct (qi_id i); [discriminate|]. intros H; inversion H. reflexivity. Qed.
+Lemma parse_all_each {I R} (f : I -> option R) : forall is l, parse_all f is = Some l -> forall x, In x l -> exists i, f i = Some x.
+Proof.
+  induction is as [|i is IH]; intros l H x Hx; cbn [parse_all] in H.
+  - inversion H; subst. destruct Hx.
+  - destruct (f i) eqn:E; [|discriminate]. destruct (parse_all f is) eqn:E2; [|discriminate]. cbn in H. inversion H; subst.
+    destruct Hx as [<-|Hx]; [exists i; exact E|eapply IH; [reflexivity|exact Hx]].
+Qed.
+Lemma set_nth_In {A} : forall n (y : A) l x, In x (set_nth n y l) -> x = y \/ In x l.
+Proof.
+  induction n as [|n IH]; intros y l x H; destruct l as [|z l]; cbn [set_nth] in H; try (destruct H; fail).
+  - destruct H as [<-|H]; [left; reflexivity|right; right; exact H].
+  - destruct H as [<-|H]; [right; left; reflexivity|]. destruct (IH _ _ _ H) as [->|H']; [left; reflexivity|right; right; exact H'].
+Qed.
+Lemma mark_keeps_fseid ps qs ps1 qs1 s : mark_session_qer ps qs = Done (ps1, qs1) ->
+  (forall q, In q qs -> q_fseid q = s) -> forall q, In q qs1 -> q_fseid q = s.
+Proof.
+  unfold mark_session_qer. intros H Hq. destruct ps as [|p0 pr]; [inversion H; subst; exact Hq|].
+  destruct (nth_error (p0 :: pr) (length (p0 :: pr) - 1)); [|discriminate].
+  destruct (Nat.ltb (length (p_qers p)) 1 || Nat.ltb (length qs) 2); [inversion H; subst; exact Hq|].
+  destruct (search_list (p0 :: pr) (p_qers p)); [|inversion H; subst; exact Hq].
+  destruct (select_qer qs 0 l (0%nat, 0, 0)) as [[sidx sid] sm].
+  destruct (nth_error qs sidx) as [q0|] eqn:En; [|discriminate]. inversion H; subst.
+  intros q Iq. destruct (set_nth_In _ _ _ _ Iq) as [->|I]; [|apply Hq; exact I].
+  cbn. apply Hq. eapply nth_error_In. exact En.
+Qed.
+
+
+Section EstIsolated.
+  Variable burst : N -> N -> N -> N.
+
+  Lemma est_owned a c nid cpf pdrs fars qers draws a' c' rseid n l cr cmds ms sd s :
+    handle_est burst a c nid cpf pdrs fars qers draws = Done (a', c', Out (Some (REst rseid CAUSE_OK n (Some l) cr)) cmds ms sd) ->
+    find_session l (c_sessions c') = Some s ->
+    owned_by l (view (s_fars s)) (view (s_qers s)).
+  Proof.
+    intros H Hf. unfold handle_est in H. split_all H; inversion H; subst; try discriminate.
+    all: try (unfold CAUSE_OK, CAUSE_REJ, CAUSE_NORES, CAUSE_NOASSOC, CAUSE_MISSING in *; congruence).
+    cbn [c_sessions] in Hf.
+    match goal with Hp : pick_seid _ _ _ = Some _ |- _ => destruct (pick_seid_spec _ _ _ _ Hp) as (A & _ & _) end.
+    match type of Hf with find_session ?l (put_session ?x _) = _ =>
+      change l with (s_lseid x) in Hf; rewrite (find_put x _ A) in Hf end.
+    inversion Hf; subst. cbn [s_fars s_qers]. unfold s_of, view. cbn [len back]. rewrite !firstn_all.
+    split.
+    - intros f If. match goal with Hp : parse_all _ fars = Some _ |- _ => destruct (parse_all_each _ _ _ Hp f If) as (i & Ei) end.
+      eapply parse_far_fseid. exact Ei.
+    - match goal with Hm : mark_session_qer _ ?qs = Done (_, ?qs1) |- forall q, In q ?qs1 -> _ =>
+        apply (mark_keeps_fseid _ _ _ _ _ Hm) end.
+      intros q Iq. match goal with Hp : parse_all _ qers = Some _ |- _ => destruct (parse_all_each _ _ _ Hp q Iq) as (i & Ei) end.
+      eapply parse_qer_fseid. exact Ei.
+  Qed.
+
+  (* the FAR / QER slots of a session with another local SEID read the same before and after *)
+  Lemma est_isolated a c nid cpf pdrs fars qers draws a' c' rseid n l cr cmds ms sd m k l1 :
+    handle_est burst a c nid cpf pdrs fars qers draws = Done (a', c', Out (Some (REst rseid CAUSE_OK n (Some l) cr)) cmds ms sd) ->
+    l1 <> l -> slot_of_fseid m k l1 ->
+    t_get k (tab_of m (a_tables a')) = t_get k (tab_of m (a_tables a)).
+  Proof.
+    intros H Hne Hs. destruct (est_accepted burst _ _ _ _ _ _ _ _ _ _ _ _ _ _ _ _ _ H) as (l' & s & Hu & _ & _ & _ & Hf & _).
+    inversion Hu; subst l'. destruct (est_accepted_tables burst _ _ _ _ _ _ _ _ _ _ _ _ _ _ _ _ _ _ H Hf) as [Hc Ht].
+    pose proof (est_owned _ _ _ _ _ _ _ _ _ _ _ _ _ _ _ _ _ _ H Hf) as Ho.
+    rewrite Ht, !tab_of_eq. apply apply_cmds_untouched. intros x Ix.
+    assert (In x (session_cmds burst (view (s_pdrs s)) (view (s_fars s)) (view (s_qers s)))) as Ix'.
+    { unfold session_cmds. apply in_or_app. left. rewrite <- Hc. exact Ix. }
+    destruct (session_cmd_cases burst _ _ _ _ _ Ho Ix') as [[Mx _]|Fx].
+    - unfold hits. rewrite Mx. destruct Hs as [[-> _]|[[-> _]|[-> _]]]; reflexivity.
+    - (* a pseudo command that sits in the slot (m, k) *)
+      pose (y := Cmd m true k []).
+      assert (cmd_of_fseid y l1) as Fy by exact Hs.
+      pose proof (fseid_separates _ _ _ _ Fy Fx Hne) as X. unfold same_slot in X. cbn [c_mod c_key y] in X.
+      unfold hits. rewrite (key_eqb_sym (c_key x) k). exact X.
+  Qed.
+End EstIsolated.
